@@ -640,7 +640,11 @@ def synth_adapt(ctx, res, drv):
             t = target_of(nx.path_graph(3) if n_emit == 1 else nx.cycle_graph(4))
             s = HybridEvolutionarySolver(target=t, metric=Infidelity(t), compiler=StabilizerCompiler(), solver_setting=setting)
             if s.n_emitter != n_emit:
+                # the hybrid solver takes its emitter number from the target (path on 3 vertices: 1, 4-cycle: 2 — C03's height function); a
+                # different number used to drop the case with a note only
                 res.notes.append(f"hybrid n_emitter for case is {s.n_emitter}, expected {n_emit}")
+                res.exact_break("adapt:hybrid-n_emitter", input={"kind": "adapt", "solver": kind, "n_emitter": n_emit}, impl=f"n_emitter = {s.n_emitter}",
+                                model=f"{n_emit} emitters for {'the path on 3 vertices' if n_emit == 1 else 'the 4-cycle'}")
                 continue
         steps = n_stop + 3
         seq = [[float(v) for v in s.trans_probs.values()]]
@@ -659,9 +663,11 @@ def synth_adapt(ctx, res, drv):
         orig = np.random.choice
 
         def rec_choice(a, *args, **kw):
-            if "p" in kw and not isinstance(a, int):
+            # numpy: choice(a, size=None, replace=True, p=None) — the probabilities may arrive by keyword or as the 4th positional argument
+            pr = kw["p"] if "p" in kw else (args[2] if len(args) > 2 else None)
+            if pr is not None and not isinstance(a, int):
                 seen["keys"] = [k.__name__ for k in a]
-                seen["p"] = [float(x) for x in kw["p"]]
+                seen["p"] = [float(x) for x in pr]
             return orig(a, *args, **kw)
 
         np.random.choice = rec_choice
@@ -673,6 +679,11 @@ def synth_adapt(ctx, res, drv):
         if "p" in seen:
             lines.append(f"evo.adapt nstop=1 nemit={n_emit} kind=randomize steps=0")
             recs.append(("randomize", n_emit, 1, seen["keys"], [seen["p"]]))
+        else:
+            # randomize_circuit draws its transformation with np.random.choice(list, p=table): not seeing that draw means the table is no
+            # longer observed (another generator / another call shape) and this comparison would silently disappear
+            res.exact_break("adapt:randomize-table-not-observed", input={"kind": "adapt", "solver": "randomize", "n_emitter": n_emit},
+                            impl="population_initialization drew no transformation through np.random.choice(..., p=...)", model="the randomize table is drawn from")
     for rep, (kind, n_emit, n_stop, keys, seq) in zip(drv.batch(lines), recs):
         res.evaluations += 1
         inp = {"kind": "adapt", "solver": kind, "n_emitter": n_emit, "n_stop": n_stop}
@@ -1186,6 +1197,7 @@ def run_jobs_analyse(ctx, res, drv, pool, jobs, collected):
         job = jobs[ji]
         a = runs.get("A")
         if a is None:
+            res.count("errors", "solve:first-run-missing")  # the worker's failure is reported where it was received (infra / result-unreadable)
             continue
         res.evaluations += 1
         res.count("sizes", f"{job['solver']}:{job['graph']}")
@@ -1288,8 +1300,11 @@ def run(ctx):
     phases = {}
 
     def timed(name, f, *a, **k):
+        # every phase runs under common.impl_guard: the solver constructors, adapt_probabilities / seed / population_initialization and the
+        # SolverResult calls of the unit streams are made outside a `try`; an exception of graphiq there is reported with the phase's name
         t0 = _time.time()
-        f(*a, **k)
+        with common.impl_guard(res, name, promise=True):
+            f(*a, **k)
         phases[name] = round(_time.time() - t0, 1)
 
     try:
